@@ -957,6 +957,9 @@ def parse_for(fields, text, index, *cwd):
         sep += ','
     if fields['mode']['html']:
         s = html.unescape(s)
+        sep = html.unescape(sep)
+        if fsep is not None:
+            fsep = html.unescape(fsep)
     elements = []
     for n in range(start, stop + step // abs(step), step):
         if flags & 4:
@@ -968,7 +971,7 @@ def parse_for(fields, text, index, *cwd):
     if len(elements) > 2 and fsep is not None:
         elements[-2] = fsep
     if fields['mode']['html']:
-        return end, html.escape(''.join(elements))
+        return end, html.escape(''.join(elements), False)
     return end, ''.join(elements)
 
 def parse_foreach(writer, text, index, *cwd):
@@ -1037,12 +1040,15 @@ def parse_foreach(writer, text, index, *cwd):
         fsep = sep
     if entry_holder.fields['mode']['html']:
         s = html.unescape(s)
+        sep = html.unescape(sep)
+        fsep = html.unescape(fsep)
+        values = [html.unescape(v) for v in values]
     if len(values) == 1:
         retval = s.replace(var, values[0])
     else:
         retval = fsep.join((sep.join([s.replace(var, v) for v in values[:-1]]), s.replace(var, values[-1])))
     if entry_holder.fields['mode']['html']:
-        return end, html.escape(retval)
+        return end, html.escape(retval, False)
     return end, retval
 
 def parse_format(fields, text, index, *cwd):
